@@ -228,7 +228,8 @@ def standard_check(ctx, P):
     seen = set()
     for t_id, lines in traces:
         evs = [json.loads(x) for x in lines]
-        key = json.dumps([{k: v for k, v in e.items() if k != "t"} for e in evs], sort_keys=True)
+        kf = P.get("dedupe_key")   # optional: fn(events) -> hashable key (e.g. to ignore clock readings)
+        key = kf(evs) if kf else json.dumps([{k: v for k, v in e.items() if k != "t"} for e in evs], sort_keys=True)
         if key in seen:
             continue
         seen.add(key)
